@@ -93,7 +93,7 @@ func universes(thorough bool) []*Universe {
 			// nested buckets as independent namespaces; key "x" doubles as plain key and bucket name
 			Name: "nesting", Locs: [][]string{locRoot, locX, locY, locXY}, Keys: nestKeys, Vals: []string{"1"},
 			BNames: nestNames, Walk: true, CurDel: true,
-			MaxOps: 2, MaxEntries: pick(2, 4),
+			MaxOps: 2, MaxEntries: pick(2, 3),
 		},
 		{
 			// the whole alphabet, one operation per transaction
@@ -133,6 +133,11 @@ func Run(args []string) {
 	g := &global{run: run, viol: map[string]*vrec{}, samples: map[string]*sample{}, allState: map[string]bool{}, t0: time.Now()}
 	g.tot.perKO = map[string]int{}
 	g.tot.roNotConverted = map[string]int{}
+	// wall budget: a run on an overloaded machine stops early (exhaustive:false) instead of overrunning its tier
+	g.budget = 52 * time.Second
+	if run.Thorough() {
+		g.budget = 560 * time.Second
+	}
 	g.hang = 30 * time.Second
 	if s := os.Getenv("C11_HANG_S"); s != "" {
 		if n, err := strconv.Atoi(s); err == nil && n > 0 {
@@ -178,7 +183,8 @@ func Run(args []string) {
 			}
 			g.mu.Unlock()
 		}
-		if run.Expired() {
+		if (run.Expired() || time.Since(g.t0) > g.budget) && i+1 < len(us) {
+			g.noteNotExhaustive(fmt.Sprintf("wall budget reached: %d universe(s) not run", len(us)-i-1))
 			break
 		}
 	}
